@@ -959,3 +959,6 @@ B('C16', 'gcd of derived rows without the initial value', 'prover/omega.py',
   "            g = functools.reduce(gcd, df.factoid[:-1], 0)\n            if g > 1:", "            g = functools.reduce(gcd, df.factoid[:-1])\n            if g > 1:", 'C16.O5', 'extend_cross_product')
 N('C16', 'gcd of derived rows over absolute values', 'prover/omega.py',
   "            g = functools.reduce(gcd, df.factoid[:-1], 0)\n            if g > 1:", "            g = functools.reduce(gcd, [abs(c) for c in df.factoid[:-1]])\n            if g > 1:")
+B('C18', 'qnt_rm_unused strips both sides without regard to the quantifier', VM,
+  "        if lhs.is_forall():\n            l_vars, l_bd = lhs.strip_forall()\n            r_vars, r_bd = rhs.strip_forall()\n        else:\n            l_vars, l_bd = lhs.strip_exists()\n            r_vars, r_bd = rhs.strip_exists()\n        free_vars = []",
+  "        l_vars, l_bd = lhs.strip_quant()\n        r_vars, r_bd = rhs.strip_quant()\n        free_vars = []", 'C18.R21', 'verit_qnt_rm_unused')
